@@ -411,41 +411,85 @@ SI_PREFIXES = {"yotta": 24, "zetta": 21, "exa": 18, "peta": 15, "tera": 12, "gig
 
 
 def _u8_prefixes(run: Run) -> None:
-    """U8: the library's own table of SI prefixes (core/symbols/prefixes.py) is a finite table: every entry is folded and compared with the SI power of ten"""
+    """U8: the library's own table of SI prefixes (core/symbols/prefixes.py) is a finite table: the module-level value `prefixes` is EVALUATED (a namedtuple built from
+    keywords, from a dict of exponents, from a comprehension - whatever) and every field compared with the SI power of ten"""
+    from fractions import Fraction as _Fr
+    from ..pyreader import PyReader, Raised
+    from ..alg import T as _T, normalize as _normalize
     run.rule("U8", "every entry of symplyphysics.prefixes is the SI power of ten of its name (deca = 10, deci = 1/10, ...)")
     PM = "symplyphysics.core.symbols.prefixes"
     if PM not in run.src.mods:
         return
     m = run.src.need(PM)
-    tbl = next((st for st in m.tree.body if isinstance(st, ast.Assign) and any(isinstance(t, ast.Name) and t.id == "prefixes" for t in st.targets)), None)
-    if tbl is None or not (isinstance(tbl.value, ast.Call) and dotted(tbl.value.func) == "Prefixes" and not tbl.value.args and all(k.arg for k in tbl.value.keywords)):
-        raise AnalysisError("C07/U8: symplyphysics.core.symbols.prefixes.prefixes is not a literal table Prefixes(name=value, ...): its entries are not folded, no verdict on them")
 
-    def fold(e):
-        from fractions import Fraction as _Fr
-        if isinstance(e, ast.Constant) and isinstance(e.value, (int, float)) and not isinstance(e.value, bool):
-            return _Fr(str(e.value))
-        if isinstance(e, ast.UnaryOp) and isinstance(e.op, ast.USub):
-            return -fold(e.operand)
-        if isinstance(e, ast.BinOp) and isinstance(e.op, (ast.Pow, ast.Mult, ast.Div)):
-            l_, r_ = fold(e.left), fold(e.right)
-            if isinstance(e.op, ast.Pow):
-                if r_.denominator != 1:
-                    raise AnalysisError("C07/U8: fractional power in the prefix table")
-                return l_ ** int(r_)
-            return l_ * r_ if isinstance(e.op, ast.Mult) else l_ / r_
-        if isinstance(e, ast.Call) and (dotted(e.func) or "").split(".")[-1] in ("Rational", "Fraction") and len(e.args) == 2:
-            return fold(e.args[0]) / fold(e.args[1])
-        raise AnalysisError(f"C07/U8: entry `{norm(e, 40)}` of the prefix table is not a literal power of ten")
-    from fractions import Fraction as _Fr2
-    for k in tbl.value.keywords:
-        run.ob("U8", k.arg)
-        if k.arg not in SI_PREFIXES:
-            raise AnalysisError(f"C07/U8: prefix {k.arg} is not in the checker's SI table")
-        v = fold(k.value)
-        if v != _Fr2(10) ** SI_PREFIXES[k.arg]:
-            run.violate("U8", f"{PM}:{k.arg}", m, k.value, f"prefixes.{k.arg} is {v}, the SI prefix {k.arg} is 10**{SI_PREFIXES[k.arg]}: every conversion to or from a {k.arg}-unit is off by that factor")
-    run.floor("U8", len(tbl.value.keywords), 20, "entries of the prefix table")
+    class R(PyReader):
+
+        def hook_call(self, n, env, fns):
+            name = (dotted(n.func) or "").split(".")[-1]
+            if name == "namedtuple" and len(n.args) == 2 and name not in self.functions:
+                fields = self.ev(n.args[1], env, fns)
+                if isinstance(fields, str):
+                    fields = fields.replace(",", " ").split()
+                if isinstance(fields, dict):
+                    fields = list(fields)
+                if not (isinstance(fields, list) and all(isinstance(f_, str) for f_ in fields)):
+                    self.fail(n, "namedtuple fields")
+                return ("ntclass", tuple(fields))
+            return NotImplemented
+
+        def apply_value(self, fval, args, n, fns, kwargs=None):
+            if isinstance(fval, tuple) and len(fval) == 2 and fval[0] == "ntclass":
+                fields = list(fval[1])
+                if len(args) > len(fields) or any(k not in fields for k in (kwargs or {})):
+                    raise Raised("TypeError", getattr(n, "lineno", 0))
+                vals = dict(zip(fields, args))
+                vals.update(kwargs or {})
+                if set(vals) != set(fields):
+                    raise Raised("TypeError", getattr(n, "lineno", 0))
+                return ("ntvalue", {f_: vals[f_] for f_ in fields})
+            return super().apply_value(fval, args, n, fns, kwargs)
+
+        def ev_call(self, n, env, fns):
+            # Prefixes(...): the callee is a module-level VALUE (the namedtuple class)
+            if isinstance(n.func, ast.Name) and n.func.id not in env and n.func.id not in self.functions:
+                try:
+                    fv = self.global_value(n.func)
+                except AnalysisError:
+                    fv = None
+                if isinstance(fv, tuple) and len(fv) == 2 and fv[0] == "ntclass":
+                    args = []
+                    for a in n.args:
+                        args += list(self.ev(a.value, env, fns)) if isinstance(a, ast.Starred) else [self.ev(a, env, fns)]
+                    kw_ = {k.arg: self.ev(k.value, env, fns) for k in n.keywords if k.arg}
+                    for k in n.keywords:
+                        if k.arg is None:
+                            kw_.update(self.ev(k.value, env, fns))
+                    return self.apply_value(fv, args, n, fns, kw_)
+            return super().ev_call(n, env, fns)
+
+    rd = R(m.tree, "prefixes.py", depth_limit=6)
+    try:
+        table = rd.global_value(ast.Name(id="prefixes", ctx=ast.Load()))
+    except Raised as r_:
+        raise AnalysisError(f"C07/U8: building symplyphysics.prefixes raises {r_.exc}")
+    if not (isinstance(table, tuple) and len(table) == 2 and table[0] == "ntvalue"):
+        raise AnalysisError("C07/U8: symplyphysics.core.symbols.prefixes.prefixes is not a named tuple the evaluation can build: its entries are not folded, no verdict on them")
+    for name, v in table[1].items():
+        run.ob("U8", name)
+        if name not in SI_PREFIXES:
+            raise AnalysisError(f"C07/U8: prefix {name} is not in the checker's SI table")
+        val = _Fr(v) if isinstance(v, int) and not isinstance(v, bool) else (v.val if isinstance(v, _T) and v.op == "num" else None)
+        if val is None and isinstance(v, _T):
+            try:
+                nf = _normalize(v)
+                val = nf.n.constant() / nf.d.constant() if hasattr(nf.n, "constant") else None
+            except Exception:  # pylint: disable=broad-except
+                val = None
+        if val is None:
+            raise AnalysisError(f"C07/U8: entry {name} of the prefix table does not fold to a number ({v!r})")
+        if val != _Fr(10) ** SI_PREFIXES[name]:
+            run.violate("U8", f"{PM}:{name}", m, m.tree, f"prefixes.{name} is {val}, the SI prefix {name} is 10**{SI_PREFIXES[name]}: every conversion to or from a {name}-unit is off by that factor")
+    run.floor("U8", len(table[1]), 20, "entries of the prefix table")
 
 
 def _mentions(t, name: str) -> bool:
